@@ -217,6 +217,7 @@ struct Totals {
     samples: Vec<J>,
     violations: Vec<J>,
     classes_seen: BTreeMap<(String, String), u64>,
+    max_run_cpu_ms: u64,
 }
 
 /// Worker process: runs indices start, start+stride, .. < total
@@ -225,19 +226,20 @@ pub fn worker_main(prop: &Property, tier: &str, base_seed: u64, start: u64, stri
     // watchdog: a single poll that takes longer than 20 s of wall time is a stall
     std::thread::spawn(|| {
         let mut last = STEP_BEAT.load(Ordering::Relaxed);
-        let mut quiet = 0;
+        // processor time, not wall time: the verdict must not depend on the load of the machine
+        let mut since = crate::sim::process_cpu_ms();
         loop {
             std::thread::sleep(Duration::from_secs(1));
             let now = STEP_BEAT.load(Ordering::Relaxed);
             if now == last && now & 1 == 1 {
-                quiet += 1;
+                let quiet = crate::sim::process_cpu_ms().saturating_sub(since) / 1000;
                 if quiet >= 20 {
                     println!("W stall");
                     let _ = std::io::stdout().flush();
                     std::process::exit(97);
                 }
             } else {
-                quiet = 0;
+                since = crate::sim::process_cpu_ms();
                 last = now;
             }
         }
@@ -257,7 +259,9 @@ pub fn worker_main(prop: &Property, tier: &str, base_seed: u64, start: u64, stri
             let _ = writeln!(o, "S {} {} {}", idx, seed, v.name);
             let _ = o.flush();
         }
+        let cpu0 = crate::sim::process_cpu_ms();
         let r = run_once(v, seed, Source::Seed, false, case);
+        t.max_run_cpu_ms = t.max_run_cpu_ms.max(crate::sim::process_cpu_ms().saturating_sub(cpu0));
         t.runs += 1;
         t.steps += r.steps;
         t.vms += r.vms;
@@ -329,7 +333,7 @@ pub fn worker_main(prop: &Property, tier: &str, base_seed: u64, start: u64, stri
         "probes": t.probes, "faults": t.faults, "runs_with_fault": t.runs_with_fault,
         "hashes": t.hashes.iter().map(|h| format!("{:x}", h)).collect::<Vec<_>>(),
         "sched": t.sched.iter().map(|h| format!("{:x}", h)).collect::<Vec<_>>(),
-        "per_variant": t.per_variant, "samples": t.samples,
+        "per_variant": t.per_variant, "samples": t.samples, "max_run_cpu_ms": t.max_run_cpu_ms,
         "classes": t.classes_seen.iter().map(|((k, s), n)| json!({"kind": k, "sig": s, "count": n})).collect::<Vec<_>>(),
     });
     let mut o = out.lock();
@@ -441,6 +445,7 @@ pub fn orchestrate(prop: &Property, tier: &str, base_seed: u64, runs_override: O
     let mut vms = 0u64;
     let mut choices = 0u64;
     let mut runs_with_fault = 0u64;
+    let mut max_run_cpu_ms = 0u64;
     let mut probes: BTreeMap<String, u64> = BTreeMap::new();
     let mut faults: BTreeMap<String, u64> = BTreeMap::new();
     let mut per_variant: BTreeMap<String, u64> = BTreeMap::new();
@@ -462,7 +467,7 @@ pub fn orchestrate(prop: &Property, tier: &str, base_seed: u64, runs_override: O
                     status,
                     idx,
                     seed,
-                    if stalled { "one task poll did not return within 20 s of wall time" } else { "abort, stack overflow or allocation failure" }
+                    if stalled { "one task poll did not return within 20 s of processor time" } else { "abort, stack overflow or allocation failure" }
                 );
                 violations.push(json!({
                     "property": prop.id, "variant": var, "tier": tier, "seed": seed, "index": idx, "case": prop.seed_and_case(idx).1, "config": "", "choices": [],
@@ -483,6 +488,7 @@ pub fn orchestrate(prop: &Property, tier: &str, base_seed: u64, runs_override: O
             vms += t["vms"].as_u64().unwrap_or(0);
             choices += t["choices"].as_u64().unwrap_or(0);
             runs_with_fault += t["runs_with_fault"].as_u64().unwrap_or(0);
+            max_run_cpu_ms = max_run_cpu_ms.max(t["max_run_cpu_ms"].as_u64().unwrap_or(0));
             for (name, map) in [("probes", &mut probes), ("faults", &mut faults), ("per_variant", &mut per_variant)] {
                 if let Some(o) = t[name].as_object() {
                     for (k, v) in o {
@@ -599,6 +605,8 @@ pub fn orchestrate(prop: &Property, tier: &str, base_seed: u64, runs_override: O
             "runs_per_hour": if wall > 0.0 { (runs as f64 / wall * 3600.0) as u64 } else { 0 },
             "seeds_per_hour": if wall > 0.0 { (runs as f64 / wall * 3600.0) as u64 } else { 0 },
             "runs_with_at_least_one_fault": runs_with_fault,
+            "most_processor_time_used_by_one_run_ms": max_run_cpu_ms,
+            "processor_time_budget_per_run_ms": crate::sim::RUN_WALL_BUDGET_S * 1000,
             "faults_fired": faults,
             "reach_probes": probes,
             "probes_at_zero": at_zero,
@@ -684,25 +692,25 @@ pub fn replay_main(props: &[Property], path: &str, quiet: bool) -> i32 {
         let (pid2, path2, stall_expected) = (prop.id.to_string(), path.to_string(), want_kind == "single-poll-stall");
         std::thread::spawn(move || {
             let mut last = STEP_BEAT.load(Ordering::Relaxed);
-            let mut quiet_s = 0;
+            let mut since = crate::sim::process_cpu_ms();
             loop {
                 std::thread::sleep(Duration::from_secs(1));
                 let now = STEP_BEAT.load(Ordering::Relaxed);
                 if now == last && now & 1 == 1 {
-                    quiet_s += 1;
+                    let quiet_s = crate::sim::process_cpu_ms().saturating_sub(since) / 1000;
                     if quiet_s >= 20 {
                         if stall_expected {
                             println!("VIOLATION property={} replay={}", pid2, path2);
-                            println!("  kind=single-poll-stall sig= :: one task poll did not return within 20 s of wall time");
+                            println!("  kind=single-poll-stall sig= :: one task poll did not return within 20 s of processor time");
                             let _ = std::io::stdout().flush();
                             std::process::exit(1);
                         }
-                        println!("REPLAY-MISMATCH one task poll did not return within 20 s of wall time");
+                        println!("REPLAY-MISMATCH one task poll did not return within 20 s of processor time");
                         let _ = std::io::stdout().flush();
                         std::process::exit(97);
                     }
                 } else {
-                    quiet_s = 0;
+                    since = crate::sim::process_cpu_ms();
                     last = now;
                 }
             }
